@@ -5,7 +5,12 @@
  * returns it until its release call starts (DESIGN §6).
  */
 #include <stddef.h>
-#include "vsx.h"
+#ifdef VSX_FREE
+#    define GALLOC_PASSTHROUGH 1
+#    include "vsx_free.h"
+#else
+#    include "vsx.h"
+#endif
 #include "galloc.h"
 #include <aws/common/byte_buf.h>
 #include <aws/common/ring_buffer.h>
